@@ -1,107 +1,249 @@
 /-
   Lemmas about one signing round of the XAP model: the digest on the framing `ZipToTar` writes, the patch (through the
-  real patch path, C12), and what re-signing the result does.
+  real patch path, C12), and what re-signing the result does.  The lemmas that do not depend on *which* suffix
+  `removeSignature` cuts off are stated for an arbitrary prefix-returning function `rm`, and instantiated for the repaired
+  code (`removeSignature`) and for the code before the repair of FX1 (`removeSignatureOrig`).
 -/
 import Relic.Proofs.Xap
 import Relic.Props.C12
 namespace Relic.Xap
 open Relic
 
+/-- `rm` returns a prefix of its argument -/
+def PrefixFn (rm : Bytes → Bytes) : Prop := ∀ cd, rm cd = cd.take (rm cd).length
+
+theorem prefixFn_removeSignature : PrefixFn removeSignature := removeSignature_take
+theorem prefixFn_removeSignatureOrig : PrefixFn removeSignatureOrig := removeSignatureOrig_take
+
+theorem PrefixFn.length_le {rm : Bytes → Bytes} (h : PrefixFn rm) (cd : Bytes) : (rm cd).length ≤ cd.length := by
+  have := congrArg List.length (h cd)
+  simp only [List.length_take] at this
+  omega
+
 /-- what `DigestXapTar` hashes and what signing keeps of the file `z` whose directory starts at `loc`: everything up to
-    the directory, then the directory blob as `removeSignature` leaves it -/
-def base (z : Bytes) (loc : Nat) : Bytes := z.take loc ++ removeSignature (z.drop loc)
+    the directory, then the directory blob as `rm` leaves it -/
+def baseWith (rm : Bytes → Bytes) (z : Bytes) (loc : Nat) : Bytes := z.take loc ++ rm (z.drop loc)
 
-theorem base_length (z : Bytes) (loc : Nat) (h : loc ≤ z.length) :
-    (base z loc).length = loc + (removeSignature (z.drop loc)).length := by
-  simp [base]; omega
-
-theorem base_length_le (z : Bytes) (loc : Nat) (h : loc ≤ z.length) : (base z loc).length ≤ z.length := by
-  rw [base_length z loc h]
-  have := removeSignature_length_le (z.drop loc)
-  simp at this; omega
-
-/-- `base` is a prefix of the file -/
-theorem base_eq_take (z : Bytes) (loc : Nat) (h : loc ≤ z.length) : base z loc = z.take (base z loc).length := by
-  have hl := base_length z loc h
-  have hle := removeSignature_length_le (z.drop loc)
-  rw [hl]
-  unfold base
-  rw [removeSignature_take (z.drop loc)]
-  rw [List.take_add]
-  congr 1
-  rw [List.length_take, Nat.min_eq_left hle]
+/-- `baseWith` for the repaired `removeSignature` -/
+def base (z : Bytes) (loc : Nat) : Bytes := baseWith removeSignature z loc
+/-- `baseWith` for the code before the repair of FX1 -/
+def baseOrig (z : Bytes) (loc : Nat) : Bytes := baseWith removeSignatureOrig z loc
 
 theorem nameZip_ne_nameCD : nameZip ≠ nameCD := by decide
 
-theorem walk_zipToTar (z : Bytes) (loc : Nat) (h : loc ≤ z.length) :
-    walk [] true (zipToTar z loc) = .ok (z.drop loc, ⟨nameZip, z.length, z⟩) := by
-  unfold zipToTar
-  rw [walk, if_pos rfl, if_neg (by simp), walk, if_neg nameZip_ne_nameCD, if_pos rfl]
+section generic
+variable {rm : Bytes → Bytes} (hrm : PrefixFn rm)
+include hrm
 
-/-- **digestTar_zipToTar.** On the two-member framing of `(z, loc)` the digest succeeds, hashes `base z loc` and asks for
-    the range from there to the end of the file to be replaced. -/
-theorem digestTar_zipToTar (z : Bytes) (loc : Nat) (h : loc ≤ z.length) :
-    digestTar (zipToTar z loc) true =
-      .ok ⟨base z loc, ((base z loc).length : Int), (z.length : Int) - ((base z loc).length : Int)⟩ := by
-  unfold digestTar
-  rw [walk_zipToTar z loc h, bind_ok]
+theorem baseWith_length (z : Bytes) (loc : Nat) (h : loc ≤ z.length) :
+    (baseWith rm z loc).length = loc + (rm (z.drop loc)).length := by
+  simp [baseWith]; omega
+
+theorem baseWith_length_le (z : Bytes) (loc : Nat) (h : loc ≤ z.length) : (baseWith rm z loc).length ≤ z.length := by
+  rw [baseWith_length hrm z loc h]
+  have := hrm.length_le (z.drop loc)
+  simp at this; omega
+
+/-- `baseWith` is a prefix of the file -/
+theorem baseWith_eq_take (z : Bytes) (loc : Nat) (h : loc ≤ z.length) :
+    baseWith rm z loc = z.take (baseWith rm z loc).length := by
+  have hl := baseWith_length hrm z loc h
+  have hle := hrm.length_le (z.drop loc)
+  rw [hl]
+  unfold baseWith
+  rw [List.take_add]
+  congr 1
+  exact hrm (z.drop loc)
+
+theorem digestTarWith_zipToTar (z : Bytes) (loc : Nat) (h : loc ≤ z.length) :
+    digestTarWith rm (zipToTar z loc) true =
+      .ok ⟨baseWith rm z loc, ((baseWith rm z loc).length : Int), (z.length : Int) - ((baseWith rm z loc).length : Int)⟩ := by
+  have hw : walk [] true (zipToTar z loc) = .ok (z.drop loc, ⟨nameZip, z.length, z⟩) := by
+    unfold zipToTar
+    rw [walk, if_pos rfl, if_neg (by simp), walk, if_neg nameZip_ne_nameCD, if_pos rfl]
+  unfold digestTarWith
+  rw [hw, bind_ok]
   have hb : ((z.length : Int) - ((z.drop loc).length : Int)).toNat = loc := by
     simp only [List.length_drop]; omega
   simp only []
   rw [hb, if_neg (by omega)]
-  have hl := base_length z loc h
+  have hl := baseWith_length hrm z loc h
+  unfold baseWith at hl ⊢
   congr 2
   · rw [hl]; simp only [List.length_drop]; omega
   · rw [hl]; simp only [List.length_drop]; omega
 
-/-- the single patch of one signing round -/
-def thePatch (z : Bytes) (loc : Nat) (s : Bytes) : Binpatch.Patch :=
-  ⟨(base z loc).length, z.length - (base z loc).length, sigBlock s⟩
+end generic
 
-theorem thePatch_constructible (z : Bytes) (loc : Nat) (s : Bytes) (h : loc ≤ z.length) :
-    Props.C12.Constructible z.length [thePatch z loc s] := by
-  have := base_length_le z loc h
-  show Binpatch.wfFrom z.length 0 [thePatch z loc s] = true
-  simp only [Binpatch.wfFrom, thePatch, Bool.and_true, Bool.and_eq_true]
+/-- the single patch of one signing round -/
+def thePatchWith (rm : Bytes → Bytes) (z : Bytes) (loc : Nat) (s : Bytes) : Binpatch.Patch :=
+  ⟨(baseWith rm z loc).length, z.length - (baseWith rm z loc).length, sigBlock s⟩
+
+def thePatch (z : Bytes) (loc : Nat) (s : Bytes) : Binpatch.Patch := thePatchWith removeSignature z loc s
+
+section generic2
+variable {rm : Bytes → Bytes} (hrm : PrefixFn rm)
+include hrm
+
+theorem thePatchWith_constructible (z : Bytes) (loc : Nat) (s : Bytes) (h : loc ≤ z.length) :
+    Props.C12.Constructible z.length [thePatchWith rm z loc s] := by
+  have := baseWith_length_le hrm z loc h
+  show Binpatch.wfFrom z.length 0 [thePatchWith rm z loc s] = true
+  simp only [Binpatch.wfFrom, thePatchWith, Bool.and_true, Bool.and_eq_true]
   exact ⟨decide_eq_true (Nat.zero_le _), decide_eq_true (by omega)⟩
 
-theorem patchCalls_digest (z : Bytes) (loc : Nat) (s : Bytes) (h : loc ≤ z.length) :
-    patchCalls ⟨base z loc, ((base z loc).length : Int), (z.length : Int) - ((base z loc).length : Int)⟩ s =
-      some [thePatch z loc s] := by
-  have := base_length_le z loc h
-  unfold patchCalls thePatch
+theorem patchCalls_digestWith (z : Bytes) (loc : Nat) (s : Bytes) (h : loc ≤ z.length) :
+    patchCalls ⟨baseWith rm z loc, ((baseWith rm z loc).length : Int), (z.length : Int) - ((baseWith rm z loc).length : Int)⟩ s =
+      some [thePatchWith rm z loc s] := by
+  have := baseWith_length_le hrm z loc h
+  unfold patchCalls thePatchWith
   rw [if_neg (by simp only []; omega)]
   simp only [Int.toNat_natCast]
   congr 3
   omega
 
-theorem sem_thePatch (z : Bytes) (loc : Nat) (s : Bytes) (h : loc ≤ z.length) :
-    Binpatch.sem z [thePatch z loc s] = base z loc ++ sigBlock s := by
-  have hle := base_length_le z loc h
-  simp only [Binpatch.sem, List.foldr, thePatch, splice]
-  have : (base z loc).length + (z.length - (base z loc).length) = z.length := by omega
-  rw [this, List.drop_length, List.append_nil, ← base_eq_take z loc h]
+theorem sem_thePatchWith (z : Bytes) (loc : Nat) (s : Bytes) (h : loc ≤ z.length) :
+    Binpatch.sem z [thePatchWith rm z loc s] = baseWith rm z loc ++ sigBlock s := by
+  have hle := baseWith_length_le hrm z loc h
+  simp only [Binpatch.sem, List.foldr, thePatchWith, splice]
+  have : (baseWith rm z loc).length + (z.length - (baseWith rm z loc).length) = z.length := by omega
+  rw [this, List.drop_length, List.append_nil, ← baseWith_eq_take hrm z loc h]
 
-/-- **signRound_eq.** One signing round on `(z, loc)` (digest, `Sign`, the patch applied through `Add` and the rewrite
-    loop) writes `base z loc ++ header ++ s ++ trailer`. -/
-theorem signRound_eq (z : Bytes) (loc : Nat) (s : Bytes) (h : loc ≤ z.length) :
-    signRound z loc s = .ok (base z loc ++ sigBlock s) := by
-  unfold signRound
-  rw [digestTar_zipToTar z loc h, bind_ok]
+/-- digest, `Sign`, the patch applied through `Add` and the rewrite loop, on the framing of `(z, loc)` -/
+theorem signWith_eq (z : Bytes) (loc : Nat) (s : Bytes) (h : loc ≤ z.length) :
+    ((digestTarWith rm (zipToTar z loc) true).bind fun d => applyPatch z d s) = .ok (baseWith rm z loc ++ sigBlock s) := by
+  rw [digestTarWith_zipToTar hrm z loc h, bind_ok]
   unfold applyPatch
-  rw [patchCalls_digest z loc s h]
+  rw [patchCalls_digestWith hrm z loc s h]
   simp only []
-  rw [Props.C12.add_spec uint32Max z _ (thePatch_constructible z loc s h), sem_thePatch z loc s h]
+  rw [Props.C12.add_spec uint32Max z _ (thePatchWith_constructible hrm z loc s h), sem_thePatchWith hrm z loc s h]
+
+end generic2
+
+/-! ### the repaired code -/
+
+theorem base_length (z : Bytes) (loc : Nat) (h : loc ≤ z.length) :
+    (base z loc).length = loc + (removeSignature (z.drop loc)).length := baseWith_length prefixFn_removeSignature z loc h
+
+theorem base_length_le (z : Bytes) (loc : Nat) (h : loc ≤ z.length) : (base z loc).length ≤ z.length :=
+  baseWith_length_le prefixFn_removeSignature z loc h
+
+theorem base_eq_take (z : Bytes) (loc : Nat) (h : loc ≤ z.length) : base z loc = z.take (base z loc).length :=
+  baseWith_eq_take prefixFn_removeSignature z loc h
+
+/-- `base` in terms of `frameSize`: the file minus the frame at the end of its directory blob -/
+theorem base_eq (z : Bytes) (loc : Nat) (h : loc ≤ z.length) : base z loc = z.take (z.length - frameSize (z.drop loc)) := by
+  have e := base_eq_take z loc h
+  have hl := base_length z loc h
+  have hf := frameSize_le (z.drop loc)
+  rw [removeSignature_length] at hl
+  rw [e, hl]
+  congr 1
+  simp only [List.length_drop] at *
+  omega
+
+/-- **digestTar_zipToTar.** On the two-member framing of `(z, loc)` the digest succeeds, hashes `base z loc` and asks for
+    the range from there to the end of the file to be replaced. -/
+theorem digestTar_zipToTar (z : Bytes) (loc : Nat) (h : loc ≤ z.length) :
+    digestTar (zipToTar z loc) true =
+      .ok ⟨base z loc, ((base z loc).length : Int), (z.length : Int) - ((base z loc).length : Int)⟩ :=
+  digestTarWith_zipToTar prefixFn_removeSignature z loc h
+
+theorem thePatch_constructible (z : Bytes) (loc : Nat) (s : Bytes) (h : loc ≤ z.length) :
+    Props.C12.Constructible z.length [thePatch z loc s] := thePatchWith_constructible prefixFn_removeSignature z loc s h
+
+theorem patchCalls_digest (z : Bytes) (loc : Nat) (s : Bytes) (h : loc ≤ z.length) :
+    patchCalls ⟨base z loc, ((base z loc).length : Int), (z.length : Int) - ((base z loc).length : Int)⟩ s =
+      some [thePatch z loc s] := patchCalls_digestWith prefixFn_removeSignature z loc s h
+
+theorem sem_thePatch (z : Bytes) (loc : Nat) (s : Bytes) (h : loc ≤ z.length) :
+    Binpatch.sem z [thePatch z loc s] = base z loc ++ sigBlock s := sem_thePatchWith prefixFn_removeSignature z loc s h
+
+/-- **signRound_eq.** One signing round on `(z, loc)` writes `base z loc ++ header ++ s ++ trailer`. -/
+theorem signRound_eq (z : Bytes) (loc : Nat) (s : Bytes) (h : loc ≤ z.length) :
+    signRound z loc s = .ok (base z loc ++ sigBlock s) := signWith_eq prefixFn_removeSignature z loc s h
 
 /-- **base_signed.** The directory blob of relic's own output is the old one followed by a consistent frame, which
     `removeSignature` takes off again: the next round hashes and keeps exactly what this round did. -/
 theorem base_signed (z : Bytes) (loc : Nat) (s : Bytes) (h : loc ≤ z.length) (hs : s.length + 8 < 4294967296) :
     base (base z loc ++ sigBlock s) loc = base z loc := by
   have e : base z loc ++ sigBlock s = z.take loc ++ (removeSignature (z.drop loc) ++ sigBlock s) := by
-    simp [base]
+    simp [base, baseWith]
   have hl : (z.take loc).length = loc := by simp; omega
   show (base z loc ++ sigBlock s).take loc ++ removeSignature ((base z loc ++ sigBlock s).drop loc) = base z loc
   rw [e, take_append_len _ _ loc hl, drop_append_len _ _ loc hl, append_sigBlock, removeSignature_framed _ _ _ _ _ hs]
   rfl
+
+theorem framed_append (p c : Bytes) (u1 u2 u3 : Nat) (blob : Bytes) :
+    p ++ framed c u1 u2 u3 blob = framed (p ++ c) u1 u2 u3 blob := by simp [framed]
+
+/-- a frame at the end of a suffix is a frame at the end of the whole -/
+theorem frameSize_append (p c : Bytes) (h : frameSize c ≠ 0) : frameSize (p ++ c) = frameSize c := by
+  obtain ⟨u1, u2, u3, blob, e, hk, hb⟩ := frameSize_pos_framed c h
+  have : p ++ c = framed (p ++ c.take (c.length - frameSize c)) u1 u2 u3 blob := by
+    conv => lhs; rw [e]
+    exact framed_append _ _ _ _ _ _
+  rw [this, frameSize_framed _ _ _ _ _ hb, hk]
+
+/-- no frame at the end of the file: nothing is cut off, whatever the directory offset -/
+theorem base_of_unsigned (z : Bytes) (loc : Nat) (hf : frameSize z = 0) : base z loc = z := by
+  have h0 : frameSize (z.drop loc) = 0 := by
+    refine Classical.byContradiction fun hne => ?_
+    have := frameSize_append (z.take loc) (z.drop loc) hne
+    rw [List.take_append_drop] at this
+    omega
+  show z.take loc ++ removeSignature (z.drop loc) = z
+  unfold removeSignature
+  rw [h0, Nat.sub_zero, List.take_length, List.take_append_drop]
+
+/-- a file that ends in a consistent frame behind the directory offset: exactly the frame is cut off -/
+theorem base_of_signed (b s₀ : Bytes) (loc : Nat) (hb : loc ≤ b.length) (hs₀ : s₀.length + 8 < 4294967296) :
+    base (b ++ sigBlock s₀) loc = b := by
+  have e : b ++ sigBlock s₀ = b.take loc ++ (b.drop loc ++ sigBlock s₀) := by
+    rw [← List.append_assoc, List.take_append_drop]
+  have hl : (b.take loc).length = loc := by simp; omega
+  show (b ++ sigBlock s₀).take loc ++ removeSignature ((b ++ sigBlock s₀).drop loc) = b
+  rw [e, take_append_len _ _ loc hl, drop_append_len _ _ loc hl, append_sigBlock, removeSignature_framed _ _ _ _ _ hs₀,
+    List.take_append_drop]
+
+/-- the part of relic's own output in front of the frame `Sign` added -/
+theorem take_signed (b s : Bytes) (hs : s.length + 8 < 4294967296) :
+    frameSize (b ++ sigBlock s) = s.length + 18 ∧
+    (b ++ sigBlock s).take ((b ++ sigBlock s).length - frameSize (b ++ sigBlock s)) = b := by
+  have hf : frameSize (b ++ sigBlock s) = s.length + 18 := by rw [append_sigBlock, frameSize_framed _ _ _ _ _ hs]
+  refine ⟨hf, ?_⟩
+  rw [hf]
+  have : (b ++ sigBlock s).length - (s.length + 18) = b.length := by simp only [List.length_append, sigBlock_length]; omega
+  rw [this]
+  exact take_append_len _ _ _ rfl
+
+/-! ### through the transform of the signer module -/
+
+/-- when the (repaired) transform finds the directory at `loc` inside the file, the signer module writes what `signRound` writes -/
+theorem signFile_eq (z s : Bytes) (loc : Nat)
+    (hfd : Zip.findDirectory ⟨z.take (z.length - frameSize z), false, 0⟩ = .ok loc) (hloc : loc ≤ z.length) :
+    signFile z s = .ok (base z loc ++ sigBlock s) := by
+  have ht : transform z = .ok (zipToTar z loc) := by
+    unfold transform; rw [hfd, bind_ok, if_neg (by omega)]
+  unfold signFile
+  rw [ht, bind_ok]
+  exact signRound_eq z loc s hloc
+
+/-- **signFile_signed.** The signer module on a file that ends in a frame `Sign` wrote (directory of the part in front found
+    at `loc`): the transform locates the directory in front of the frame, the digest ignores the frame, the patch replaces it. -/
+theorem signFile_signed (b s₁ s₂ : Bytes) (loc : Nat) (hfd : Zip.findDirectory ⟨b, false, 0⟩ = .ok loc) (hloc : loc ≤ b.length)
+    (h1 : s₁.length + 8 < 4294967296) : signFile (b ++ sigBlock s₁) s₂ = .ok (b ++ sigBlock s₂) := by
+  have ht := (take_signed b s₁ h1).2
+  have hl : loc ≤ (b ++ sigBlock s₁).length := by simp only [List.length_append]; omega
+  rw [signFile_eq (b ++ sigBlock s₁) s₂ loc (by rw [ht]; exact hfd) hl, base_of_signed b s₁ loc hloc h1]
+
+/-- the same for the code before the repairs -/
+theorem signFileOrig_eq (z s : Bytes) (loc : Nat) (hfd : Zip.findDirectory ⟨z, false, 0⟩ = .ok loc) (hloc : loc ≤ z.length) :
+    signFileOrig z s = .ok (baseOrig z loc ++ sigBlock s) := by
+  have ht : transformOrig z = .ok (zipToTar z loc) := by
+    unfold transformOrig; rw [hfd, bind_ok, if_neg (by omega)]
+  unfold signFileOrig
+  rw [ht, bind_ok]
+  exact signWith_eq prefixFn_removeSignatureOrig z loc s hloc
 
 end Relic.Xap
